@@ -215,8 +215,150 @@ fn run_case(tw: &c16::TcpWorld, c: &Case) -> Result<(), String> {
     })
 }
 
+/// a failure on either side tears the whole tunnel down: the client resets its stream (HTTP/2) or drops its connection
+/// (HTTP/1.1) - the origin's connection must end; or the origin aborts with a TCP reset - the client's stream /
+/// connection must end, holding nothing but a prefix of what the origin sent
+fn run_failure_case(tw: &c16::TcpWorld, h2: bool, who: char) -> Result<(), String> {
+    let rt = tokio::runtime::Builder::new_current_thread().enable_all().start_paused(true).build().unwrap();
+    rt.block_on(async {
+        let core = c16::make_core_pub();
+        let target = tw.origin.to_string();
+        let mut h1 = None;
+        let mut h2s = None;
+        let mut st = None;
+        if h2 {
+            let mut s = vlive::open_h2_with(&core, "localhost", 1 << 20).await.ok_or("h2 handshake")?;
+            st = Some(s.request("CONNECT", &target, &[], false).await.ok_or("h2 request")?);
+            h2s = Some(s);
+        } else {
+            let mut s = vlive::open_h1_with(&core, "localhost", 1 << 20);
+            s.send(format!("CONNECT {} HTTP/1.1\r\nHost: {}\r\n\r\n", target, target).as_bytes());
+            h1 = Some(s);
+        }
+        let spin = |ms: u64| async move {
+            let t = Instant::now();
+            while t.elapsed() < Duration::from_millis(ms) {
+                for _ in 0..50 {
+                    tokio::task::yield_now().await;
+                }
+            }
+        };
+        let t0 = Instant::now();
+        let mut origin = loop {
+            spin(1).await;
+            if let Ok((s, _)) = tw.listener.accept() {
+                break s;
+            }
+            if t0.elapsed() > Duration::from_secs(3) {
+                return Err("the origin saw no connection".to_string());
+            }
+        };
+        origin.set_nonblocking(true).map_err(|e| e.to_string())?;
+        origin.set_nodelay(true).map_err(|e| e.to_string())?;
+        // some traffic both ways first
+        let up = pattern(3000, 0x21);
+        let down = pattern(4000, 0x43);
+        match (st.as_mut(), h1.as_mut()) {
+            (Some(s), _) => {
+                s.send(&up, false);
+            }
+            (_, Some(h)) => {
+                h.send(&up);
+            }
+            _ => {}
+        }
+        let _ = origin.write(&down);
+        let mut got = vec![];
+        let mut buf = vec![0u8; 65536];
+        let t0 = Instant::now();
+        loop {
+            spin(1).await;
+            if let Ok(n) = origin.read(&mut buf) {
+                got.extend_from_slice(&buf[..n]);
+            }
+            let have = match (st.as_mut(), h1.as_mut()) {
+                (Some(s), _) => {
+                    s.poll();
+                    s.received.len()
+                }
+                (_, Some(h)) => {
+                    h.poll();
+                    h.received.windows(4).position(|w| w == b"\r\n\r\n").map(|p| h.received.len() - p - 4).unwrap_or(0)
+                }
+                _ => 0,
+            };
+            if got.len() >= up.len() && have >= down.len() {
+                break;
+            }
+            if t0.elapsed() > Duration::from_secs(3) {
+                return Err("the tunnel did not relay the first bytes".to_string());
+            }
+        }
+        if who == 'r' {
+            match (st.as_mut(), h1.take()) {
+                (Some(s), _) => s.reset(),
+                (_, Some(h)) => drop(h),
+                _ => {}
+            }
+            let t0 = Instant::now();
+            loop {
+                spin(1).await;
+                match origin.read(&mut buf) {
+                    Ok(0) => return Ok(()),
+                    Ok(_) => {}
+                    Err(e) if e.kind() == std::io::ErrorKind::WouldBlock => {}
+                    Err(_) => return Ok(()),
+                }
+                if t0.elapsed() > Duration::from_secs(3) {
+                    return Err("the client gave its stream / connection up, 3 s later the origin's connection was still open".to_string());
+                }
+            }
+        } else {
+            let _ = socket2::SockRef::from(&origin).set_linger(Some(Duration::from_secs(0)));
+            drop(origin);
+            let t0 = Instant::now();
+            loop {
+                spin(1).await;
+                let (over, body): (bool, Vec<u8>) = match (st.as_mut(), h1.as_mut()) {
+                    (Some(s), _) => {
+                        s.poll();
+                        (s.ended || s.failed, s.received.clone())
+                    }
+                    (_, Some(h)) => {
+                        h.poll();
+                        (h.eof, h.received.windows(4).position(|w| w == b"\r\n\r\n").map(|p| h.received[p + 4..].to_vec()).unwrap_or_default())
+                    }
+                    _ => (true, vec![]),
+                };
+                if over {
+                    let _ = &h2s;
+                    return if down.starts_with(&body) || body.starts_with(&down) && body.len() == down.len() { Ok(()) } else { Err(format!("after the origin aborted the client holds {} bytes that are not what the origin sent", body.len())) };
+                }
+                if t0.elapsed() > Duration::from_secs(3) {
+                    return Err("the origin aborted its connection (TCP reset), 3 s later the client's stream was still open".to_string());
+                }
+            }
+        }
+    })
+}
+
 pub fn run(ctx: &mut Ctx) {
     let tw = c16::make_tcp_world();
+    for h2 in [false, true] {
+        for who in ['r', 'x'] {
+            ctx.stat("live_failing_tunnels");
+            let desc = format!(
+                "CONNECT over {}, 3000 bytes up and 4000 down, then {}",
+                if h2 { "HTTP/2" } else { "HTTP/1.1" },
+                if who == 'r' { if h2 { "the client resets its stream" } else { "the client drops its connection" } } else { "the origin aborts its connection (TCP reset)" }
+            );
+            match catch(std::panic::AssertUnwindSafe(|| run_failure_case(&tw, h2, who))) {
+                Ok(Ok(())) => {}
+                Ok(Err(e)) => ctx.oracle_failure("live_tunnel", &format!("{}: {}", desc, e)),
+                Err(m) => ctx.oracle_failure("panic", &format!("{}: panicked ({})", desc, m)),
+            }
+        }
+    }
     let sizes: &[usize] = if ctx.thorough() { &[0, 1, 70_000, 1_000_000] } else { &[0, 1, 70_000, 300_000] };
     let mut cases = vec![];
     for h2 in [false, true] {
